@@ -438,13 +438,15 @@ def dimension_tables(rep, F):
             key = "%s::%s" % (cname, meth)
             try:
                 fn = F.impl_method(HD, cre, None, meth, crates=("geo",))
-                paths = opaque(F, loop_bound=3).run(fn)
+                from ..report import thorough
+                deep = thorough()
+                paths = opaque(F, loop_bound=4 if deep else 3).run(fn)
             except (KeyError, Unanalysable) as e:
                 rep.bad("R1.6", key + ":anchor", str(e))
                 continue
             n = 0
             bad = None
-            for k in (0, 1, 2):
+            for k in ((0, 1, 2, 3) if deep else (0, 1, 2)):
                 for ms in itertools.product(member_choices(mkind), repeat=k):
                     ms = list(ms)
                     whole = {"dimensions": D(spec_dims(ms)), "is_closed": all(m.get("is_closed", True) for m in ms),
